@@ -119,6 +119,8 @@ def _check_diagrams_once(case, ctx, user_arrays, pristine, pass_no):
     f32 = np.concatenate([d.astype(np.float32).ravel() for d in shown])
     f32 = f32[np.isfinite(f32)].astype(float)
     span = float(f32.max() - f32.min())
+    if np.any((np.abs(f32) > 0) & (np.abs(f32) < 1e-30)):
+        ctx.skip("coordinates in the float32 subnormal range (not representable in single precision)")
     if 0 < span < 1e-3 * float(np.max(np.abs(f32))):
         # the plot works on float32 copies ("to single precision"): a diagram whose whole extent is a few float32 ulps
         # cannot be laid out meaningfully and is outside what the statement can promise
